@@ -759,6 +759,11 @@ def int_form(t, wrap=False):
         if y is not peel(x):
             return ("len", strip_sites(y))
         return ("len", strip_sites(peel(x)))
+    if t.op == "field" and t.a[1] == "0" and t.a[0].op == "downcast" and t.a[0].a[1] == "Some":
+        # `a.checked_add(b)` / `checked_sub` on the Some arm: the exact sum / difference
+        c = peel(t.a[0].a[0])
+        if c.op == "call" and len(c.a[1]) == 2 and cname(c) in ("num::<impl usize>::checked_add", "num::<impl usize>::checked_sub", "num::<impl u64>::checked_add", "num::<impl u64>::checked_sub"):
+            return ("add" if cname(c).endswith("checked_add") else "sub", int_form(c.a[1][0], wrap), int_form(c.a[1][1], wrap))
     if t.op == "field" and t.a[1] == "0" and t.a[0].op == "bin" and t.a[0].a[0] in ("AddWithOverflow", "SubWithOverflow"):
         # checked form: the Assert on `.1` precedes every use of `.0`, so `.0` is the exact result
         return ("add" if t.a[0].a[0].startswith("Add") else "sub", int_form(t.a[0].a[1], wrap), int_form(t.a[0].a[2], wrap))
@@ -827,7 +832,7 @@ def slice_form(x, wrap=False):
         if sb is not None:
             return sb
         bb = strip_sites(peel(b))
-        if peel(b).op in ("store", "mutcall"):
+        if peel(b).op in ("store", "mutcall", "call"):
             return (bb, ("c", 0), int_form(T("len", peel(b)), wrap))
         return (bb, ("c", 0), ("len", bb))
     if x.op == "call" and cname(x) in ("Index::index", "IndexMut::index_mut") and len(x.a[1]) == 2:
